@@ -114,6 +114,8 @@ class Sym:
         self.called = "false"
         self.at_call = None
         self.brk = "False"
+        self.ret = "False"
+        self.allow_return = False
         self.writes_after_call = False
 
     # ---- lvalues -----------------------------------------------------------
@@ -135,7 +137,19 @@ class Sym:
             if k in ("BinaryOperator", "CompoundAssignOperator") and x.get("opcode", "").endswith("=") and \
                     x.get("opcode") not in ("==", "!=", "<=", ">=") and self.lvalue(kids(x)[0]):
                 return True
+            if k == "CallExpr" and self.callee(x) == "platform_atomic_store_int" and self.store_target(x):
+                return True
         return False
+
+    def store_target(self, call):
+        """platform_atomic_store_int(&v, val) with v tracked -> v"""
+        args = kids(call)
+        if len(args) != 3:
+            return None
+        a = strip(args[1])
+        if a.get("kind") == "UnaryOperator" and a.get("opcode") == "&":
+            return self.lvalue(kids(a)[0])
+        return None
 
     def mentions_tracked(self, n):
         return any(x.get("kind") in ("DeclRefExpr", "MemberExpr") and self.lvalue(x) for x in walk(n))
@@ -195,6 +209,8 @@ class Sym:
             return ("int", str(v) if v >= 0 else "(%d)" % v)
         if k == "ImplicitCastExpr" and n.get("castKind") in ("LValueToRValue", "NoOp"):
             return self.expr(kids(n)[0])
+        if k in ("ImplicitCastExpr", "CStyleCastExpr") and n.get("castKind") == "NullToPointer":
+            return self.expr(kids(n)[0])
         if k in ("ImplicitCastExpr", "CStyleCastExpr") and n.get("castKind") in ("IntegralCast", "NoOp"):
             inner = kids(n)[0]
             r = self.expr(inner)
@@ -228,6 +244,13 @@ class Sym:
             a, b = kids(n)
             if op == "=":
                 v = self.lvalue(a)
+                if v is None and getattr(self, "nested_ok", False):
+                    # store to something outside the slice: only the tracked assignments nested in the value count
+                    for x in walk(b):
+                        if x.get("kind") in ("BinaryOperator", "CompoundAssignOperator") and x.get("opcode", "").endswith("=") and \
+                                x.get("opcode") not in ("==", "!=", "<=", ">=") and self.lvalue(kids(x)[0]):
+                            self.expr(x)
+                    return ("int", "0")
                 if v is None:
                     raise OutOfGrammar("assignment to an untracked lvalue")
                 val = self.as_int(self.expr(b))
@@ -241,6 +264,16 @@ class Sym:
                     raise OutOfGrammar("side effect in the right operand of " + op)
                 return ("prop", "(%s %s %s)" % (ra, "∧" if op == "&&" else "∨", rb))
             ra = self.as_int(self.expr(a))
+            if op == "&":
+                lit = strip(b)
+                while lit.get("kind") in ("ImplicitCastExpr", "CStyleCastExpr"):
+                    lit = strip(kids(lit)[0])
+                if lit.get("kind") == "IntegerLiteral":
+                    c = int(lit["value"])
+                    if c > 0 and c & (c - 1) == 0:
+                        # x & 2^k on two's complement = bit k of x (Lean Int `/` and `%` round towards -inf for c > 0)
+                        return ("int", "(((%s / %d) %% 2) * %d)" % (ra, c, c))
+                raise OutOfGrammar("& with an operand that is not a power-of-two literal")
             rb = self.as_int(self.expr(b))
             if op in ("+", "-", "*"):
                 return ("int", "(%s %s %s)" % (ra, op, rb))
@@ -248,6 +281,14 @@ class Sym:
             if op in rel:
                 return ("prop", "(%s %s %s)" % (ra, rel[op], rb))
             raise OutOfGrammar("binary " + str(op))
+        if k == "CompoundAssignOperator" and n.get("opcode") in ("+=", "-="):
+            a, b = kids(n)
+            v = self.lvalue(a)
+            if v is None:
+                raise OutOfGrammar("compound assignment to an untracked lvalue")
+            val = "(%s %s %s)" % (self.state[v], n["opcode"][0], self.as_int(self.expr(b)))
+            self.assign(v, val)
+            return ("int", val)
         if k == "ConditionalOperator":
             c, a, b = kids(n)
             pc = self.as_prop(self.expr(c))
@@ -271,10 +312,10 @@ class Sym:
         return out
 
     def snapshot(self):
-        return (dict(self.state), self.called, self.at_call, self.brk)
+        return (dict(self.state), self.called, self.at_call, self.brk, self.ret)
 
     def restore(self, s):
-        self.state, self.called, self.at_call, self.brk = dict(s[0]), s[1], s[2], s[3]
+        self.state, self.called, self.at_call, self.brk, self.ret = dict(s[0]), s[1], s[2], s[3], s[4]
 
     def stmt(self, n):
         k = n.get("kind")
@@ -286,6 +327,9 @@ class Sym:
             return
         if k == "BreakStmt":
             self.brk = "True"
+            return
+        if k == "ReturnStmt" and self.allow_return:
+            self.ret = "True"
             return
         if not self.relevant(n):
             return
@@ -313,9 +357,16 @@ class Sym:
             else:
                 self.at_call = m(s1[2] or "0", s2[2] or "0")
             self.brk = m(s1[3], s2[3], "True", "False")
+            self.ret = m(s1[4], s2[4], "True", "False")
+            return
+        if k == "ReturnStmt" and self.allow_return:
+            self.ret = "True"
             return
         if k == "BreakStmt":
             self.brk = "True"
+            return
+        if k == "CallExpr" and self.callee(n) == "platform_atomic_store_int" and self.store_target(n):
+            self.assign(self.store_target(n), self.as_int(self.expr(kids(n)[2])))
             return
         if k == "CallExpr" and self.call_marker and self.callee(n) == self.call_marker:
             if self.called != "false":
@@ -392,6 +443,194 @@ def extract(bdir):
     info["appendStore"] = [sy.state["ticks"], sy.state["interval"]]
     out.append("/-- src/backend.c set_heart_beat, append branch: (heart_beat_ticks, time_to_heart_beat) of the new entry -/\n"
                "def appendStore (to : Int) : Int × Int :=\n  (%s,\n   %s)\n" % (sy.state["ticks"], sy.state["interval"]))
+
+    import re as _re0
+    flagdefs = open(os.path.join(E.REPO, "lib/lpc/object.h")).read()
+    m0 = _re0.search(r"#define\s+O_ENABLE_COMMANDS\s+(0x[0-9a-fA-F]+|\d+)", flagdefs)
+    if not m0:
+        raise TieBroken("call_heart_beat:call-frame", "O_ENABLE_COMMANDS not found in lib/lpc/object.h")
+    o_enable = int(m0.group(1), 0)
+
+    def dref(n):
+        n = strip(n)
+        while n.get("kind") == "ImplicitCastExpr":
+            n = strip(kids(n)[0])
+        return n.get("referencedDecl", {}).get("name") if n.get("kind") == "DeclRefExpr" else None
+
+    def is_zero(n):
+        n = strip(n)
+        while n.get("kind") in ("ImplicitCastExpr", "CStyleCastExpr"):
+            n = strip(kids(n)[0])
+        return n.get("kind") == "IntegerLiteral" and int(n["value"]) == 0
+
+    def assign_of(n):
+        """(lhs global name, rhs node) of a plain assignment statement, else None"""
+        if n.get("kind") == "BinaryOperator" and n.get("opcode") == "=":
+            a, b = kids(n)
+            if dref(a):
+                return dref(a), b
+        return None
+
+    def deref_ob_eq(n):
+        """heart_beats[index].ob == ob"""
+        n = strip(n)
+        if n.get("kind") != "BinaryOperator" or n.get("opcode") != "==":
+            return False
+        a, b = (strip(x) for x in kids(n))
+        while a.get("kind") == "ImplicitCastExpr":
+            a = strip(kids(a)[0])
+        while b.get("kind") == "ImplicitCastExpr":
+            b = strip(kids(b)[0])
+        if a.get("kind") != "MemberExpr" or a.get("name") != "ob":
+            return False
+        sub_ = strip(kids(a)[0])
+        if sub_.get("kind") != "ArraySubscriptExpr":
+            return False
+        base, ix = kids(sub_)
+        base = strip(base)
+        while base.get("kind") == "ImplicitCastExpr":
+            base = strip(kids(base)[0])
+        ix = strip(ix)
+        while ix.get("kind") == "ImplicitCastExpr":
+            ix = strip(kids(ix)[0])
+        return base.get("referencedDecl", {}).get("name") == "heart_beats" and ix.get("referencedDecl", {}).get("name") == "index" \
+            and b.get("kind") == "DeclRefExpr" and b.get("referencedDecl", {}).get("name") == "ob"
+    # ---------------- set_heart_beat: entry guard, retune branch, growth of the array -----------------------------------
+    m2 = _re0.search(r"#define\s+O_DESTRUCTED\s+(0x[0-9a-fA-F]+|\d+)", flagdefs)
+    o_destr = int(m2.group(1), 0) if m2 else None
+    first = [st for st in top if st.get("kind") != "DeclStmt"][0]
+    okg = first.get("kind") == "IfStmt" and len(kids(first)) == 2 and \
+        any(x.get("kind") == "ReturnStmt" for x in walk(kids(first)[1])) and \
+        any(x.get("kind") == "MemberExpr" and x.get("name") == "flags" for x in walk(kids(first)[0]))
+    masks = [int(x["value"]) for x in walk(kids(first)[0]) if x.get("kind") == "IntegerLiteral"] if okg else []
+    if not okg or len(masks) != 1 or o_destr is None:
+        raise TieBroken("set_heart_beat:entry", "set_heart_beat does not start with `if (ob->flags & <mask>) return`")
+    info["shbGuard"] = [masks[0], o_destr]
+    out.append("/-- src/backend.c set_heart_beat: the flag mask of its first statement `if (ob->flags & mask) return 0;`, and the\n"
+               "    value of O_DESTRUCTED in lib/lpc/object.h -/\n"
+               "def shbGuardMask : Nat := %d\ndef oDestructed : Nat := %d\n" % (masks[0], o_destr))
+    enabled = None
+    for st in top[cut + 1:]:
+        if st.get("kind") == "IfStmt" and len(kids(st)) == 3:
+            enabled = kids(st)[1]
+    if enabled is None:
+        raise TieBroken("set_heart_beat:retune", "the branch for an object that already has a heart beat was not found")
+    ek = kids(enabled)
+    sy = Sym("set_heart_beat:retune", ["to"], {"heart_beat_ticks": "ticks", "time_to_heart_beat": "interval"}, ["to"])
+    sy.state["ticks"] = "ticks"
+    sy.state["interval"] = "interval"
+    sy.allow_return = True
+    pre = [st for st in ek if st.get("kind") != "WhileStmt"]
+    loops_e = [st for st in ek if st.get("kind") == "WhileStmt"]
+    if len(loops_e) != 1:
+        raise TieBroken("set_heart_beat:retune", "expected one search loop in the retune branch")
+    sy.run([st for st in ek[:ek.index(loops_e[0])]])
+    refuse = sy.ret
+    stores = [x for x in walk(loops_e[0]) if x.get("kind") == "IfStmt" and deref_ob_eq(kids(x)[0])]
+    if len(stores) != 1:
+        raise TieBroken("set_heart_beat:retune", "the retune loop has no `if (heart_beats[index].ob == ob) { store; break; }`")
+    sy.allow_return = False
+    body_st = kids(stores[0])[1]
+    sy.run([c for c in (kids(body_st) if body_st.get("kind") == "CompoundStmt" else [body_st]) if c.get("kind") != "BreakStmt"])
+    info["retuneStore"] = [refuse, sy.state["ticks"], sy.state["interval"]]
+    out.append("/-- src/backend.c set_heart_beat, object already on the list: (refused, heart_beat_ticks, time_to_heart_beat) -/\n"
+               "def retuneStore (to ticks interval : Int) : Bool × Int × Int :=\n  (decide %s,\n   %s,\n   %s)\n"
+               % (refuse, sy.state["ticks"], sy.state["interval"]))
+    sy = Sym("set_heart_beat:growth", ["max_heart_beats", "num_hb_objs"], {}, ["max_heart_beats", "num_hb_objs"])
+    sy.nested_ok = True
+    grow = [st for st in kids(app) if st.get("kind") == "IfStmt" and sy.writes_tracked(st)]
+    if len(grow) != 1:
+        raise TieBroken("set_heart_beat:growth", "expected one if-statement that grows max_heart_beats in the append branch")
+    sy.run(grow)
+    if sy.state["num_hb_objs"] != "num_hb_objs":
+        raise TieBroken("set_heart_beat:growth", "the growth statement writes num_hb_objs")
+    info["growCap"] = sy.state["max_heart_beats"]
+    out.append("/-- src/backend.c set_heart_beat, append branch: max_heart_beats after the (re)allocation test -/\n"
+               "def growCap (max_heart_beats num_hb_objs : Int) : Int := %s\n" % sy.state["max_heart_beats"])
+
+    # ---------------- save_context / restore_context: command_giver is part of the saved context -----------------------
+    def has_assign(fn_name, lhs_pred, rhs_pred):
+        fn_ = ast_function(bdir, "src/error_context.c", fn_name)
+        for x in walk(fn_):
+            if x.get("kind") == "BinaryOperator" and x.get("opcode") == "=":
+                a, b = kids(x)
+                if lhs_pred(strip(a)) and rhs_pred(b):
+                    return 1
+        return 0
+
+    def is_member(n, name):
+        while n.get("kind") == "ImplicitCastExpr":
+            n = strip(kids(n)[0])
+        return n.get("kind") == "MemberExpr" and n.get("name") == name
+    cs = [has_assign("save_context", lambda a: is_member(a, "save_command_giver"), lambda b: dref(b) == "command_giver"),
+          has_assign("restore_context", lambda a: dref(a) == "command_giver", lambda b: is_member(strip(b), "save_command_giver"))]
+    info["ctxSaveRestore"] = cs
+    out.append("/-- src/error_context.c: save_context stores command_giver, restore_context puts it back (1 = present) -/\n"
+               "def ctxSaveRestore : List Nat := %s\n" % str(cs))
+
+    # ---------------- backend(): recovery point, top of the loop, the call of call_heart_beat; the timer callback ------------
+    bfn = ast_function(bdir, "src/backend.c", "backend")
+    btop = kids(body_of(bfn))
+    wl_b = [i for i, st in enumerate(btop) if st.get("kind") == "WhileStmt"]
+    if len(wl_b) != 1:
+        raise TieBroken("backend:loop", "expected exactly one top-level while loop in backend()")
+
+    def calls(n, name):
+        return [x for x in walk(n) if x.get("kind") == "CallExpr" and Sym.callee(x) == name]
+    rec = [i for i, st in enumerate(btop[:wl_b[0]]) if st.get("kind") == "IfStmt" and calls(kids(st)[0], "_setjmp") + calls(kids(st)[0], "setjmp")
+           and calls(kids(st)[1], "restore_context")]
+    loop_body = kids(btop[wl_b[0]])[1]
+    lk = kids(loop_body)
+    pos = {0: [], 1: [], 2: []}
+    for i, st in enumerate(lk):
+        a_ = assign_of(st)
+        if a_ and a_[0] == "eval_cost" and any(dref(x) == "config_int" for x in walk(a_[1])):
+            pos[0].append(i)
+        if st.get("kind") == "CallExpr" and Sym.callee(st) == "remove_destructed_objects":
+            pos[1].append(i)
+        if st.get("kind") == "IfStmt" and len(kids(st)) == 2 and calls(kids(st)[1], "call_heart_beat"):
+            c = strip(kids(st)[0])
+            okc = c.get("kind") == "CallExpr" and Sym.callee(c) == "platform_atomic_load_int" and \
+                any(dref(x) == "heart_beat_flag" for x in walk(c))
+            if not okc:
+                raise TieBroken("backend:loop", "call_heart_beat in the backend loop is not guarded by `if (HEART_BEAT_FLAG())`")
+            pos[2].append(i)
+    if len(rec) != 1 or any(len(v) != 1 for v in pos.values()) or len(calls(bfn, "call_heart_beat")) != 2 or \
+            len(calls(btop[wl_b[0]], "call_heart_beat")) != 1:
+        raise TieBroken("backend:loop", "backend(): expected the setjmp/restore_context recovery point in front of the loop, and in the "
+                        "loop `eval_cost = max`, `remove_destructed_objects ()`, `if (HEART_BEAT_FLAG()) call_heart_beat ()` once "
+                        "each (found %s, recovery points %d)" % ({k: len(v) for k, v in pos.items()}, len(rec)))
+    border = [3] + [k for k, _ in sorted(pos.items(), key=lambda kv: kv[1][0])]
+    info["backendOrder"] = border
+    out.append("/-- src/backend.c backend(): 3 = `if (setjmp (econ.context)) restore_context (&econ);` in front of the loop, then inside\n"
+               "    `while (1)`: 0 = `eval_cost = CONFIG_INT (__MAX_EVAL_COST__)`, 1 = `remove_destructed_objects ()` (which swaps replaced\n"
+               "    programs), 2 = `if (HEART_BEAT_FLAG()) call_heart_beat ()` - what the harness command `tick` reproduces -/\n"
+               "def backendOrder : List Nat := %s\n" % str(border))
+    tfn = ast_function(bdir, "src/backend.c", "heartbeat_timer_callback")
+    sy = Sym("heartbeat_timer_callback", ["heart_beat_flag"], {}, ["heart_beat_flag"])
+    sy.run(kids(body_of(tfn)))
+    info["timerSetsFlag"] = sy.state["heart_beat_flag"]
+    out.append("/-- src/backend.c heartbeat_timer_callback: the value it leaves in heart_beat_flag (what the op `flag` emulates) -/\n"
+               "def timerSetsFlag (heart_beat_flag : Int) : Int := %s\n" % sy.state["heart_beat_flag"])
+
+    # ---------------- get_heart_beats: filled from the back ---------------------------------------------------------------
+    gh = ast_function(bdir, "src/backend.c", "get_heart_beats")
+    gl = [x for x in walk(gh) if x.get("kind") == "WhileStmt"]
+    rev = 0
+    if len(gl) == 1:
+        c = strip(kids(gl[0])[0])
+        while c.get("kind") == "ImplicitCastExpr":
+            c = strip(kids(c)[0])
+        down = c.get("kind") == "UnaryOperator" and c.get("opcode") == "--" and c.get("isPostfix") and dref(kids(c)[0]) == "n"
+        up = any(x.get("kind") == "UnaryOperator" and x.get("opcode") == "++" and dref(kids(x)[0]) == "hb" for x in walk(kids(gl[0])[1]))
+        idx_n = any(x.get("kind") == "ArraySubscriptExpr" and dref(kids(x)[1]) == "n" for x in walk(kids(gl[0])[1]))
+        rev = 1 if (down and up and idx_n) else 0
+    if not rev:
+        raise TieBroken("get_heart_beats:order", "get_heart_beats is not `while (n--) { arr->item[n] = hb->ob; hb++; }`")
+    info["heartBeatsReversed"] = rev
+    out.append("/-- src/backend.c get_heart_beats: item[n] (n counting down) receives the entries front to back: the efun answers\n"
+               "    the list in reverse order -/\n"
+               "def heartBeatsReversed : Bool := true\n")
 
     # ---------------- f_set_heart_beat ------------------------------------------------------------------------
     ef = body_of(ast_function(bdir, "lib/efuns/heart_beat.c", "f_set_heart_beat"))
@@ -473,6 +712,366 @@ def extract(bdir):
     out.append("/-- src/backend.c call_heart_beat, last statement of the loop body: (new heart_beat_index, leave the loop) -/\n"
                "def loopStep (heart_beat_index num_hb_to_do : Int) : Int × Bool :=\n  (%s,\n   decide %s)\n"
                % (sy.state["heart_beat_index"], sy.brk))
+    # ---------------- set_heart_beat, removal branch: the search loop and the memmove ---------------------------------
+    rk = kids(removal)
+
+    wl = [i for i, st in enumerate(rk) if st.get("kind") == "WhileStmt"]
+    if len(wl) != 1 or wl[0] == 0:
+        raise TieBroken("set_heart_beat:search", "expected exactly one search loop in the removal branch")
+    sy = Sym("set_heart_beat:search", ["index", "num_hb_objs"], {}, ["index", "num_hb_objs"])
+    sy.run(rk[:wl[0]])
+    s_start = sy.state["index"]
+    scond, sbody = kids(rk[wl[0]])
+    sy = Sym("set_heart_beat:search", ["index", "num_hb_objs"], {}, ["index", "num_hb_objs"])
+    try:
+        s_cont = sy.as_prop(sy.expr(scond))
+    except OutOfGrammar as e:
+        raise TieBroken("set_heart_beat:search", "search loop condition left the grammar: %s" % e)
+    s_next = sy.state["index"]
+    sb = kids(sbody) if sbody.get("kind") == "CompoundStmt" else [sbody]
+    if len(sb) != 1 or sb[0].get("kind") != "IfStmt" or not deref_ob_eq(kids(sb[0])[0]) or len(kids(sb[0])) != 2 or \
+            not any(x.get("kind") == "BreakStmt" for x in walk(kids(sb[0])[1])) or \
+            Sym("x", ["index", "num_hb_objs", "heart_beat_index", "num_hb_to_do"], {}, []).writes_tracked(sbody):
+        raise TieBroken("set_heart_beat:search", "the body of the search loop is not `if (heart_beats[index].ob == ob) break;`")
+    miss = rk[wl[0] + 1]
+    sy = Sym("set_heart_beat:search", ["index"], {}, ["index"])
+    if miss.get("kind") != "IfStmt" or not any(x.get("kind") == "ReturnStmt" for x in walk(kids(miss)[1])):
+        raise TieBroken("set_heart_beat:search", "no `if (index < 0) return` after the search loop")
+    try:
+        s_miss = sy.as_prop(sy.expr(kids(miss)[0]))
+    except OutOfGrammar as e:
+        raise TieBroken("set_heart_beat:search", "not-found test left the grammar: %s" % e)
+    info["search"] = [s_start, s_next, s_cont, s_miss]
+    out.append("/-- src/backend.c set_heart_beat, removal: `index = num_hb_objs; while (index--) if (heart_beats[index].ob == ob) break;\n"
+               "    if (index < 0) return 0;` - start value, one evaluation of the loop condition (new index, go on), not-found test -/\n"
+               "def searchStart (num_hb_objs : Int) : Int := %s\n"
+               "def searchNext (index : Int) : Int × Bool := (%s, decide %s)\n"
+               "def searchMiss (index : Int) : Bool := decide %s\n" % (s_start.replace("index", "num_hb_objs") if s_start == "index" else s_start,
+                                                                         s_next, s_cont, s_miss))
+
+    def ptr_off(n):
+        """offset (in elements) of a pointer expression based on heart_beats"""
+        n = strip(n)
+        while n.get("kind") in ("ImplicitCastExpr", "CStyleCastExpr"):
+            n = strip(kids(n)[0])
+        if n.get("kind") == "DeclRefExpr" and n.get("referencedDecl", {}).get("name") == "heart_beats":
+            return "0"
+        if n.get("kind") == "BinaryOperator" and n.get("opcode") == "+":
+            a, b = kids(n)
+            pa = None
+            try:
+                pa = ptr_off(a)
+            except OutOfGrammar:
+                pa = None
+            if pa is not None:
+                return "(%s + %s)" % (pa, mv.as_int(mv.expr(b))) if pa != "0" else mv.as_int(mv.expr(b))
+            return "(%s + %s)" % (mv.as_int(mv.expr(a)), ptr_off(b))
+        raise OutOfGrammar("pointer expression not based on heart_beats")
+    mv = Sym("set_heart_beat:memmove", ["index", "num_hb_objs", "num"], {}, ["index", "num_hb_objs"])
+    mv.state["num"] = "0"
+    mm = [x for st in rk[wl[0] + 2:] for x in walk(st) if x.get("kind") == "CallExpr" and Sym.callee(x) in ("memmove", "memcpy")]
+    if len(mm) != 1:
+        raise TieBroken("set_heart_beat:memmove", "expected exactly one memmove in the removal branch")
+    try:
+        move = None
+        for st in rk[wl[0] + 2:]:
+            if any(x is mm[0] for x in walk(st)):
+                if st.get("kind") != "IfStmt" or len(kids(st)) != 2:
+                    raise OutOfGrammar("memmove is not guarded by a plain if")
+                guard = mv.as_prop(mv.expr(kids(st)[0]))
+                a = kids(mm[0])
+                cnt = strip(a[3])
+                while cnt.get("kind") in ("ImplicitCastExpr", "CStyleCastExpr"):
+                    cnt = strip(kids(cnt)[0])
+                if cnt.get("kind") != "BinaryOperator" or cnt.get("opcode") != "*":
+                    raise OutOfGrammar("memmove length is not count * sizeof")
+                parts = [strip(x) for x in kids(cnt)]
+                sz = [x for x in parts if x.get("kind") == "UnaryExprOrTypeTraitExpr"]
+                other = [x for x in parts if x.get("kind") != "UnaryExprOrTypeTraitExpr"]
+                if len(sz) != 1 or sz[0].get("name") != "sizeof" or "heart_beat_t" not in json.dumps(sz[0].get("argType", {})):
+                    raise OutOfGrammar("memmove length is not a multiple of sizeof (heart_beat_t)")
+                o = other[0]
+                while o.get("kind") in ("ImplicitCastExpr", "CStyleCastExpr"):
+                    o = strip(kids(o)[0])
+                move = (ptr_off(a[1]), ptr_off(a[2]), mv.as_int(mv.expr(o)), guard)
+            elif mv.relevant(st):
+                mv.stmt(st)
+        if move is None:
+            raise OutOfGrammar("memmove statement not found at the top level of the removal branch")
+    except OutOfGrammar as e:
+        raise TieBroken("set_heart_beat:memmove", "the memmove of the removal branch left the grammar: %s" % e)
+    info["rmMove"] = list(move) + [mv.state["num_hb_objs"]]
+    out.append("/-- src/backend.c set_heart_beat, removal of the entry at `index`: memmove (heart_beats + dst, heart_beats + src,\n"
+               "    cnt * sizeof (heart_beat_t)) under its guard, then the new num_hb_objs: (dst, src, cnt, guard, num_hb_objs) -/\n"
+               "def rmMove (index num_hb_objs : Int) : Int × Int × Int × Bool × Int :=\n  (%s,\n   %s,\n   %s,\n   decide %s,\n   %s)\n"
+               % (move[0], move[1], move[2], move[3], mv.state["num_hb_objs"]))
+
+    # ---------------- query_heart_beat: which field is returned ---------------------------------------------------------
+    qfn = ast_function(bdir, "src/backend.c", "query_heart_beat")
+    rets = [x for x in walk(qfn) if x.get("kind") == "ReturnStmt"]
+    fields = []
+    for r_ in rets:
+        v = strip(kids(r_)[0]) if kids(r_) else {}
+        while v.get("kind") in ("ImplicitCastExpr", "CStyleCastExpr"):
+            v = strip(kids(v)[0])
+        if v.get("kind") == "IntegerLiteral" and int(v["value"]) == 0:
+            fields.append(0)
+        elif v.get("kind") == "MemberExpr" and v.get("name") == "time_to_heart_beat":
+            fields.append(1)
+        elif v.get("kind") == "MemberExpr" and v.get("name") == "heart_beat_ticks":
+            fields.append(2)
+        else:
+            raise TieBroken("query_heart_beat:return", "query_heart_beat returns something the translator does not know")
+    info["queryReturns"] = fields
+    out.append("/-- src/backend.c query_heart_beat, its return statements in source order: 0 = `return 0`, 1 = the interval\n"
+               "    (time_to_heart_beat) of the matching entry, 2 = its countdown (heart_beat_ticks) -/\n"
+               "def queryReturns : List Nat := %s\n" % str(fields))
+
+    # ---------------- reload_object / clone_object: the heart-beat switch-off comes before create() ---------------------
+    def order_of(fn_name, relsrc, site, recognisers):
+        fn_ = ast_function(bdir, relsrc, fn_name)
+        tops = kids(body_of(fn_))
+        where_ = {k: [] for k in recognisers}
+        for i, st in enumerate(tops):
+            for k, rec in recognisers.items():
+                if rec(st):
+                    where_[k].append(i)
+        if any(len(v) != 1 for v in where_.values()):
+            raise TieBroken(site, "%s: expected each of the statements once at top level, found %s"
+                            % (fn_name, {k: len(v) for k, v in where_.items()}))
+        n_shb = sum(1 for x in walk(fn_) if x.get("kind") == "CallExpr" and Sym.callee(x) == "set_heart_beat")
+        if n_shb != 1:
+            raise TieBroken(site, "%s calls set_heart_beat %d times" % (fn_name, n_shb))
+        return [k for k, _ in sorted(where_.items(), key=lambda kv: kv[1][0])]
+
+    def shb_zero_call(st, var):
+        for x in walk(st):
+            if x.get("kind") == "CallExpr" and Sym.callee(x) == "set_heart_beat":
+                a = kids(x)
+                return dref(a[1]) == var and is_zero(a[2])
+        return False
+
+    def clears_enable(st):
+        return st.get("kind") == "CompoundAssignOperator" and st.get("opcode") == "&=" and \
+            any(x.get("kind") == "IntegerLiteral" and int(x["value"]) == o_enable for x in walk(st))
+    rorder = order_of("reload_object", "lib/lpc/object.c", "reload_object:order", {
+        0: clears_enable,
+        1: lambda st: st.get("kind") == "CallExpr" and shb_zero_call(st, "obj"),
+        2: lambda st: st.get("kind") == "CallExpr" and Sym.callee(st) == "call_create"})
+    info["reloadOrder"] = rorder
+    out.append("/-- lib/lpc/object.c reload_object: order of 0 = `obj->flags &= ~O_ENABLE_COMMANDS`, 1 = `set_heart_beat (obj, 0)`,\n"
+               "    2 = `call_create (obj, 0)` -/\n"
+               "def reloadOrder : List Nat := %s\n" % str(rorder))
+    m1 = _re0.search(r"#define\s+O_HEART_BEAT\s+(0x[0-9a-fA-F]+|\d+)", flagdefs)
+    o_hb = int(m1.group(1), 0) if m1 else None
+
+    def blueprint_off(st):
+        if st.get("kind") != "IfStmt" or len(kids(st)) != 2 or not shb_zero_call(kids(st)[1], "ob"):
+            return False
+        c = strip(kids(st)[0])
+        return any(x.get("kind") == "IntegerLiteral" and int(x["value"]) == o_hb for x in walk(c)) and \
+            any(x.get("kind") == "MemberExpr" and x.get("name") == "flags" for x in walk(c))
+    corder = order_of("clone_object", "src/simulate.c", "clone_object:order", {
+        0: blueprint_off,
+        1: lambda st: st.get("kind") == "CallExpr" and Sym.callee(st) == "call_create"})
+    info["cloneOrder"] = corder
+    out.append("/-- src/simulate.c clone_object: order of 0 = `if (ob->flags & O_HEART_BEAT) set_heart_beat (ob, 0)` on the blueprint,\n"
+               "    1 = `call_create (new_ob, num_arg)` -/\n"
+               "def cloneOrder : List Nat := %s\n" % str(corder))
+
+    # ---------------- call_heart_beat: the frame of a round (entry, exit, no round at all) ---------------------------
+    ctop = kids(body_of(chb))
+    ifpos = [i for i, st in enumerate(ctop) if st.get("kind") == "IfStmt" and any(x is loops[0] for x in walk(st))]
+    if len(ifpos) != 1 or len(kids(ctop[ifpos[0]])) != 2 or kids(ctop[ifpos[0]])[1].get("kind") != "CompoundStmt":
+        raise TieBroken("call_heart_beat:frame", "the while loop of call_heart_beat is not inside exactly one top-level if without else")
+    fi = ifpos[0]
+    fcond, fthen = kids(ctop[fi])
+    tk = kids(fthen)
+    wpos = [i for i, st in enumerate(tk) if st is loops[0]]
+    if len(wpos) != 1:
+        raise TieBroken("call_heart_beat:frame", "the while loop is not a direct statement of the guarded block")
+    frame_vars = ["num_hb_objs", "heart_beat_index", "num_hb_to_do", "heart_beat_flag", "current_heart_beat"]
+
+    def frame_sym(site):
+        sy = Sym(site, frame_vars, {"timer_flags": "timer_flags"}, frame_vars + ["timer_flags"])
+        return sy
+    sy = frame_sym("call_heart_beat:round-entry")
+    sy.run(ctop[:fi])
+    try:
+        gcond = sy.as_prop(sy.expr(fcond))
+    except OutOfGrammar as e:
+        raise TieBroken("call_heart_beat:round-entry", "the guard of the round left the grammar: %s" % e)
+    st0 = dict(sy.state)
+    sy.run(tk[:wpos[0]])
+    st1 = dict(sy.state)
+    if sy.brk != "False" or st0["num_hb_objs"] != "num_hb_objs" or st1["num_hb_objs"] != "num_hb_objs" \
+            or st1["current_heart_beat"] != "current_heart_beat" or st1["timer_flags"] != "timer_flags":
+        raise TieBroken("call_heart_beat:round-entry", "the entry of the round writes num_hb_objs / current_heart_beat / timer_flags")
+    ent = sy.merge(gcond, st1, st0)
+    info["roundEntry"] = [ent["heart_beat_index"], ent["num_hb_to_do"], ent["heart_beat_flag"], gcond]
+    out.append("/-- src/backend.c call_heart_beat up to the while loop: (heart_beat_index, num_hb_to_do, heart_beat_flag, whether the\n"
+               "    round is entered) -/\n"
+               "def roundEntry (num_hb_objs heart_beat_index num_hb_to_do heart_beat_flag timer_flags : Int) : Int × Int × Int × Bool :=\n"
+               "  (%s,\n   %s,\n   %s,\n   decide %s)\n" % (ent["heart_beat_index"], ent["num_hb_to_do"], ent["heart_beat_flag"], gcond))
+    for name, stmts, doc in (("roundExit", tk[wpos[0] + 1:] + ctop[fi + 1:], "after the while loop"),
+                             ("roundSkip", ctop[fi + 1:], "when the round is not entered")):
+        sy = frame_sym("call_heart_beat:" + name)
+        sy.run(stmts)
+        if sy.brk != "False" or sy.state["num_hb_objs"] != "num_hb_objs" or sy.state["heart_beat_flag"] != "heart_beat_flag":
+            raise TieBroken("call_heart_beat:" + name, "the end of call_heart_beat writes num_hb_objs / heart_beat_flag")
+        info[name] = [sy.state["heart_beat_index"], sy.state["num_hb_to_do"], sy.state["current_heart_beat"]]
+        out.append("/-- src/backend.c call_heart_beat %s: (heart_beat_index, num_hb_to_do, current_heart_beat; 0 = NULL) -/\n"
+                   "def %s (heart_beat_index num_hb_to_do current_heart_beat : Int) : Int × Int × Int :=\n  (%s,\n   %s,\n   %s)\n"
+                   % (doc, name, sy.state["heart_beat_index"], sy.state["num_hb_to_do"], sy.state["current_heart_beat"]))
+
+    # ---------------- call_heart_beat: the statements around the call of heart_beat() --------------------------------
+    def find_block(n):
+        """the compound statement that directly holds the call_function statement"""
+        if n.get("kind") == "CompoundStmt":
+            for c in kids(n):
+                if c.get("kind") == "CallExpr" and Sym.callee(c) == "call_function":
+                    return n
+        for c in kids(n):
+            r = find_block(c)
+            if r is not None:
+                return r
+        return None
+    blk = find_block(wbody)
+    if blk is None:
+        raise TieBroken("call_heart_beat:call-frame", "call_function is not a direct statement of a block of the loop body")
+
+    def frame_code(st):
+        a = assign_of(st)
+        if a:
+            lhs, rhs = a
+            if lhs == "current_heart_beat" and dref(rhs) == "ob":
+                return 1
+            if lhs == "command_giver" and dref(rhs) == "ob":
+                return 2
+            if lhs == "eval_cost" and any(x.get("kind") == "DeclRefExpr" and x.get("referencedDecl", {}).get("name") == "config_int"
+                                          for x in walk(rhs)) and not any(dref(x) == "eval_cost" for x in walk(rhs)):
+                return 4
+            if lhs == "command_giver" and is_zero(rhs):
+                return 5
+            if lhs == "current_object" and is_zero(rhs):
+                return 6
+            return None
+        if st.get("kind") == "CallExpr" and Sym.callee(st) == "call_function":
+            return 0
+        if st.get("kind") == "IfStmt" and len(kids(st)) == 2:
+            c, body = kids(st)
+            c = strip(c)
+            if c.get("kind") == "UnaryOperator" and c.get("opcode") == "!":
+                t = strip(kids(c)[0])
+                if t.get("kind") == "BinaryOperator" and t.get("opcode") == "&":
+                    l, r = kids(t)
+                    l = strip(l)
+                    while l.get("kind") == "ImplicitCastExpr":
+                        l = strip(kids(l)[0])
+                    r = strip(r)
+                    while r.get("kind") in ("ImplicitCastExpr", "CStyleCastExpr"):
+                        r = strip(kids(r)[0])
+                    inner = [body] if body.get("kind") != "CompoundStmt" else kids(body)
+                    if l.get("kind") == "MemberExpr" and l.get("name") == "flags" and dref(kids(l)[0]) == "command_giver" \
+                            and r.get("kind") == "IntegerLiteral" and int(r["value"]) == o_enable and len(inner) == 1 \
+                            and assign_of(inner[0]) and assign_of(inner[0])[0] == "command_giver" and is_zero(assign_of(inner[0])[1]):
+                        return 3
+        return None
+
+    def harmless(st):
+        """no store to a global / through a pointer other than the countdown, no call except tracing"""
+        for x in walk(st):
+            k = x.get("kind")
+            if k == "CallExpr" and Sym.callee(x) not in ("debug_message", "debug_message_with_src", "platform_atomic_load_int"):
+                return False
+            if k in ("BinaryOperator", "CompoundAssignOperator") and x.get("opcode", "").endswith("=") and \
+                    x.get("opcode") not in ("==", "!=", "<=", ">="):
+                tgt = strip(kids(x)[0])
+                if not (tgt.get("kind") == "MemberExpr" and tgt.get("name") == "heart_beat_ticks"):
+                    return False
+            if k == "UnaryOperator" and x.get("opcode") in ("++", "--"):
+                return False
+            if k in ("ReturnStmt", "BreakStmt", "ContinueStmt", "GotoStmt"):
+                return False
+        return True
+    frame = []
+    for st in kids(blk):
+        c = frame_code(st)
+        if c is not None:
+            frame.append(c)
+        elif not harmless(st):
+            raise TieBroken("call_heart_beat:call-frame", "a statement next to the heart_beat call is not one the translator knows "
+                            "(line %s)" % st.get("range", {}).get("begin", {}).get("line", "?"))
+    if frame.count(0) != 1:
+        raise TieBroken("call_heart_beat:call-frame", "expected exactly one call_function in the block")
+    info["callFrame"] = frame
+    out.append("/-- src/backend.c call_heart_beat, statements around the call in source order: 1 = `current_heart_beat = ob`,\n"
+               "    2 = `command_giver = ob`, 3 = `if (!(command_giver->flags & O_ENABLE_COMMANDS)) command_giver = 0`,\n"
+               "    4 = `eval_cost = CONFIG_INT (__MAX_EVAL_COST__)`, 0 = the call of heart_beat(), 5 = `command_giver = 0`,\n"
+               "    6 = `current_object = 0` -/\n"
+               "def callFrame : List Nat := %s\n" % str(frame))
+
+    # ---------------- error_handler: catch branch first, then the heart-beat switch-off, then the longjmp -------------
+    eh = ast_function(bdir, "src/error_context.c", "error_handler")
+    etop = kids(body_of(eh))
+
+    def has_call(n, name):
+        return any(x.get("kind") == "CallExpr" and Sym.callee(x) == name for x in walk(n))
+
+    def is_catch_if(st):
+        # the FRAME_CATCH test: an if whose condition reads `framekind` and whose body longjmps
+        return st.get("kind") == "IfStmt" and any(x.get("kind") == "MemberExpr" and x.get("name") == "framekind"
+                                                    for x in walk(kids(st)[0])) and has_call(kids(st)[1], "longjmp")
+
+    def is_hb_if(st):
+        return st.get("kind") == "IfStmt" and len(kids(st)) == 2 and dref(kids(st)[0]) == "current_heart_beat"
+    ewhere = {0: [], 1: [], 2: []}
+    for i, st in enumerate(etop):
+        if is_catch_if(st):
+            ewhere[0].append(i)
+        elif is_hb_if(st):
+            ewhere[1].append(i)
+        elif st.get("kind") == "IfStmt" and dref(kids(st)[0]) == "current_error_context" and has_call(kids(st)[1], "longjmp") \
+                and i > 0 and ewhere[1]:
+            ewhere[2].append(i)
+    n_hb_calls = sum(1 for x in walk(eh) if x.get("kind") == "CallExpr" and Sym.callee(x) == "set_heart_beat")
+    n_cur_writes = sum(1 for x in walk(eh) if assign_of(x) and assign_of(x)[0] == "current_heart_beat")
+    if any(len(v) != 1 for v in ewhere.values()) or n_hb_calls != 1 or n_cur_writes != 1:
+        raise TieBroken("error_handler:order", "error_handler: expected one catch branch, one `if (current_heart_beat)` block and the "
+                        "final longjmp at top level, found %s (set_heart_beat calls: %d, current_heart_beat stores: %d)"
+                        % ({k: len(v) for k, v in ewhere.items()}, n_hb_calls, n_cur_writes))
+    # between the catch branch and the switch-off nothing may leave the function unless an error is already being handled
+    for st in etop[ewhere[0][0] + 1: ewhere[1][0]]:
+        if st.get("kind") == "IfStmt" and dref(kids(st)[0]) == "in_error":
+            continue
+        if any(x.get("kind") in ("ReturnStmt", "GotoStmt") for x in walk(st)) or has_call(st, "longjmp"):
+            raise TieBroken("error_handler:order", "error_handler can leave before the heart-beat switch-off")
+    eorder = [k for k, _ in sorted(ewhere.items(), key=lambda kv: kv[1][0])]
+    eblock = []
+    hb_body = kids(etop[ewhere[1][0]])[1]
+    for st in (kids(hb_body) if hb_body.get("kind") == "CompoundStmt" else [hb_body]):
+        if st.get("kind") == "CallExpr" and Sym.callee(st) == "set_heart_beat":
+            args = kids(st)
+            if dref(args[1]) != "current_heart_beat" or not is_zero(args[2]):
+                raise TieBroken("error_handler:block", "set_heart_beat in error_handler is not called with (current_heart_beat, 0)")
+            eblock.append(1)
+        elif assign_of(st) and assign_of(st)[0] == "current_heart_beat":
+            if not is_zero(assign_of(st)[1]):
+                raise TieBroken("error_handler:block", "current_heart_beat is not reset to 0")
+            eblock.append(2)
+        elif st.get("kind") == "CallExpr" and Sym.callee(st) in ("debug_message", "add_message"):
+            continue
+        else:
+            raise TieBroken("error_handler:block", "unknown statement in the `if (current_heart_beat)` block of error_handler")
+    info["errOrder"] = eorder
+    info["errBlock"] = eblock
+    out.append("/-- src/error_context.c error_handler, top-level order of 0 = the catch branch (FRAME_CATCH test, longjmp into do_catch),\n"
+               "    1 = the `if (current_heart_beat)` block, 2 = the final longjmp to the error context -/\n"
+               "def errOrder : List Nat := %s\n" % str(eorder))
+    out.append("/-- src/error_context.c error_handler, statements of the `if (current_heart_beat)` block in order:\n"
+               "    1 = `set_heart_beat (current_heart_beat, 0)`, 2 = `current_heart_beat = 0` -/\n"
+               "def errBlock : List Nat := %s\n" % str(eblock))
+
     # ---------------- fail closed: the cursor variables must not be written anywhere the slices above do not see -------
     import re as _re
     src_path = os.path.join(E.REPO, "src/backend.c")
